@@ -738,7 +738,7 @@ def install(E):
     def errno_loc(E, st, fr, ins, a):
         oid = st.globals.get("%errno")
         if oid is None:
-            o = E.new_obj(st, 4, name="errno", zero=True, kind="global")
+            o = E.new_obj(st, 4, name="errno", zero=True, kind="tls")        # errno is thread-local (C11 7.5): not shared state
             st.globals["%errno"] = oid = o.id
         return Ptr(oid, 0)
 
